@@ -552,7 +552,9 @@ def rules(tier):
             # C06-ea: print_statistics merges the keyboard counters in place
             ('C06.R22', _shared_rule('plumbing', 'read_only_helpers')),
             # C06-fb: a line counted in N and then skipped by the re-encode check
-            ('C06.R23', _shared_rule('c19', 'r3_multiplicity_and_r6_strip'))]
+            ('C06.R23', _shared_rule('c19', 'r3_multiplicity_and_r6_strip')),
+            # C06-ga: a K<n> section of the base structure that is never counted in Keyboard/<n>.txt
+            ('C06.R24', _shared_rule('c05', 'r25_recursive_merge'))]
 
 
 META = {
